@@ -255,6 +255,10 @@ func genStorageGeneral(g *gen) {
 			g.emit("S commit %s %s %s %d %d %d %d", c, pickGroup(), t, part, off, order, rel)
 		case x < 68:
 			part := g.intn(4)
+			if g.chance(1, 8) {
+				// an assignment can name any partition number: beyond what the topic has, or negative
+				part = int(g.pick(-1, 7, 1<<20, math.MinInt32))
+			}
 			g.emit("S owner %s %s %s %d %s %s", pickCluster(), pickGroup(), pickTopic(), part, hexName(g.pickS("host1", "host2", "")), hexName(g.pickS("cl1", "cl 2", "")))
 		case x < 70:
 			g.emit("S clear %s %s", pickCluster(), pickGroup())
@@ -295,6 +299,12 @@ func genStorageGeneral(g *gen) {
 		case x < 85:
 			g.emit("S shift %d", g.pick(500, 1000, 2000, 4000, 5000, 3600000, 3595000))
 		case x < 89:
+			if g.chance(1, 3) {
+				c := pickCluster()
+				g.emit("S consumerbusy %s %s", c, pickGroup())
+				g.emit("S consumers %s", c)
+				break
+			}
 			g.emit("S consumer %s %s", pickCluster(), pickGroup())
 		case x < 93:
 			g.emit("S status %s %s %08x %d %d", pickCluster(), pickGroup(), math.Float32bits([]float32{0, 0.3, 0.5, 1.0}[g.intn(4)]), g.pick(0, 0, 1, 5, 100), g.intn(2))
@@ -846,8 +856,18 @@ func (s *storageRunner) step(r *runner, line string) {
 			return fmt.Sprintf("burst=%d/%d named=%s extra=%d view=%s", answered, n, named, extra, view)
 		})
 		r.reply("%s", res)
-	case "consumer":
+	case "consumer", "consumerbusy":
 		now := stableNow()
+		if f[1] == "consumerbusy" {
+			// the same fetch while a concurrent reader (a consumer list, a topic deletion walking the groups) holds the
+			// read lock on the cluster's group map for 10 ms: whatever the fetch has to wait for, its outcome is the same
+			if release := s.st.HoldConsumerReadLock(unhexName(f[2])); release != nil {
+				go func() {
+					time.Sleep(10 * time.Millisecond)
+					release()
+				}()
+			}
+		}
 		reply, p := s.fetch(&protocol.StorageRequest{RequestType: protocol.StorageFetchConsumer, Cluster: unhexName(f[2]), Group: unhexName(f[3])})
 		tick := ""
 		if time.Now().Unix() != now {
